@@ -283,8 +283,9 @@ func runJobs(meta propMeta, tier string, only string) []*jobResult {
 				outf := filepath.Join(scratch, fmt.Sprintf("res-%d-%d.json", ji, s))
 				args := []string{"run", "--prop", meta.ID, "--part", job.Part, "--tier", tier, "--shard", fmt.Sprint(s), "--nshards", fmt.Sprint(job.Shards),
 					"--budget", fmt.Sprint(job.BudgetS), "--seed", seed, "--args", strings.Join(kv, ","), "--out", outf}
+				annf := filepath.Join(scratch, fmt.Sprintf("announce-%d-%d.txt", ji, s))
 				cmd := exec.Command(bin, args...)
-				cmd.Env = append(env(), fmt.Sprintf("GOMAXPROCS=%d", procs), "GOTRACEBACK=all", "GORACE=halt_on_error=1")
+				cmd.Env = append(env(), fmt.Sprintf("GOMAXPROCS=%d", procs), "GOTRACEBACK=all", "GORACE=halt_on_error=1", "VERIF_ANNOUNCE="+annf)
 				cmd.Dir = scratch
 				var buf bytes.Buffer
 				cmd.Stdout = &buf
@@ -321,6 +322,22 @@ func runJobs(meta propMeta, tier string, only string) []*jobResult {
 					r.Violate(meta.ID, key, "data race reported by the race detector in the free-running pass:\n"+rep, nil, nil)
 					shardRes[s] = r
 					return
+				}
+				if err != nil && strings.Contains(buf.String(), "fatal error: runtime: out of memory") {
+					// the worker died allocating: attribute it to the case it had announced
+					if ab, aerr := os.ReadFile(annf); aerr == nil && len(ab) > 0 {
+						parts := strings.SplitN(string(ab), "\n", 2)
+						desc := ""
+						if len(parts) > 1 {
+							desc = parts[1]
+						}
+						r := reg.NewResult(job.Part)
+						r.Evaluations = 1
+						r.Exhaustive = false
+						r.Violate(meta.ID, "oom:"+parts[0], "the worker process died with 'fatal error: runtime: out of memory' while executing this case (an allocation out of all proportion to the input): "+desc, map[string]any{"case": desc}, nil)
+						shardRes[s] = r
+						return
+					}
 				}
 				if err != nil || rerr != nil {
 					tail := buf.String()
